@@ -9,13 +9,17 @@ import (
 	"encoding/json"
 	"fmt"
 	"io"
+	"runtime"
 	"sync"
 	"testing"
 	"time"
 
 	"github.com/plgd-dev/go-coap/v3/message"
+	"github.com/plgd-dev/go-coap/v3/message/codes"
 	"github.com/plgd-dev/go-coap/v3/message/pool"
 	"github.com/plgd-dev/go-coap/v3/options"
+	"github.com/plgd-dev/go-coap/v3/options/config"
+	udpClient "github.com/plgd-dev/go-coap/v3/udp/client"
 	"pgregory.net/rapid"
 
 	"verif/bubble"
@@ -48,6 +52,10 @@ type Call struct {
 	// then give it back to the connection's pool (Release) or just drop it
 	HoldMs  int  `json:"holdMs,omitempty"`
 	Release bool `json:"release,omitempty"`
+	// GiveUp (datagram): the caller's context is cancelled at the very moment its response is taken in
+	// (from the receive path, right before the response is processed): the call may fail or succeed;
+	// whichever it does, a request issued afterwards gets its own response
+	GiveUp bool `json:"giveUp,omitempty"`
 }
 
 type Stray struct {
@@ -123,7 +131,7 @@ func Exec(t *testing.T, sc Scenario, r *evid.Run) *evid.Failure {
 	var mu sync.Mutex
 	var bad bool
 	answered := make([]bool, n)
-	var reuse result
+	var reuse, probe result
 	sepSent := map[int]refcodec.Msg{}
 	issued := make([]bool, n)
 	run := bubble.Run(t, 60*time.Second, nil, func() {
@@ -132,6 +140,22 @@ func Exec(t *testing.T, sc Scenario, r *evid.Run) *evid.Failure {
 		var w wire.Wire
 		var cc doer
 		stopRole := func() {}
+		var giveUpMu sync.Mutex
+		giveUp := map[string]context.CancelFunc{} // token -> cancel of the call that gives up at its answer
+		giveUpHook := options.WithProcessReceivedMessageFunc(config.ProcessReceivedMessageFunc[*udpClient.Conn](
+			func(req *pool.Message, c *udpClient.Conn, h config.HandlerFunc[*udpClient.Conn]) {
+				if req.Code() >= codes.Created {
+					giveUpMu.Lock()
+					cancel := giveUp[string(req.Token())]
+					delete(giveUp, string(req.Token()))
+					giveUpMu.Unlock()
+					if cancel != nil {
+						cancel()
+						runtime.Gosched()
+					}
+				}
+				c.ProcessReceivedMessageWithHandler(req, h)
+			}))
 		limit := int64(64)
 		nstart := uint32(64)
 		if sc.Serialised {
@@ -143,7 +167,7 @@ func Exec(t *testing.T, sc Scenario, r *evid.Run) *evid.Failure {
 				options.WithMessagePool(pool.New(8, 2048)), options.WithPeriodicRunner(tk.Runner()),
 				options.WithBlockwise(sc.Blockwise, 6, 3*time.Second),
 				options.WithLimitClientParallelRequest(limit), options.WithLimitClientEndpointParallelRequest(limit),
-				options.WithTransmission(nstart, 2*time.Second, 2),
+				options.WithTransmission(nstart, 2*time.Second, 2), giveUpHook,
 			}...)
 			if errRole != nil {
 				panic(errRole)
@@ -177,6 +201,11 @@ func Exec(t *testing.T, sc Scenario, r *evid.Run) *evid.Failure {
 				defer wg.Done()
 				ctx, cancel := context.WithTimeout(context.Background(), 10*time.Second)
 				defer cancel()
+				if sc.Calls[i].GiveUp {
+					giveUpMu.Lock()
+					giveUp[string(sc.Calls[i].Token)] = cancel
+					giveUpMu.Unlock()
+				}
 				issued := time.Now()
 				req, err := cc.NewGetRequest(ctx, fmt.Sprintf("/c/%d", i))
 				if err != nil {
@@ -420,6 +449,51 @@ func Exec(t *testing.T, sc Scenario, r *evid.Run) *evid.Failure {
 		case <-fin:
 		case <-time.After(12 * time.Second):
 		}
+		anyGiveUp := false
+		for _, c := range sc.Calls {
+			anyGiveUp = anyGiveUp || c.GiveUp
+		}
+		if anyGiveUp {
+			// one more, ordinary request after the calls that gave up
+			_ = w.FromLib()
+			tok := []byte{0x9B, 0x0E}
+			done := make(chan struct{})
+			go func() {
+				defer close(done)
+				ctx, cancel := context.WithTimeout(context.Background(), 10*time.Second)
+				defer cancel()
+				req, err := cc.NewGetRequest(ctx, fmt.Sprintf("/c/%d", n+1))
+				if err != nil {
+					probe = result{returned: true, err: err}
+					return
+				}
+				req.SetToken(tok)
+				resp, err := cc.Do(req)
+				o := result{returned: true, err: err}
+				if err == nil {
+					o.token = append([]byte(nil), resp.Token()...)
+					o.payload, _ = resp.ReadBody()
+				}
+				probe = o
+			}()
+			bubble.Wait()
+			for _, m := range w.FromLib() {
+				if m.Code == 1 && bytes.Equal(m.Token, tok) {
+					nextMID++
+					ans := refcodec.Msg{Type: peer.NON, MID: nextMID & 0xffff, Code: 69, Token: tok, Payload: expected(n+1, tok)}
+					if m.Type == peer.CON {
+						ans.Type, ans.MID = peer.ACK, m.MID
+					}
+					w.ToLib(ans)
+					probe.at = 1
+				}
+			}
+			bubble.Wait()
+			select {
+			case <-done:
+			case <-time.After(12 * time.Second):
+			}
+		}
 		if k := sc.Reuse - 1; k >= 0 && k < n {
 			if old, ok := sepSent[k]; ok && old.Type == peer.CON && res[k].returned && res[k].err == nil {
 				_ = w.FromLib()
@@ -507,9 +581,20 @@ func Exec(t *testing.T, sc Scenario, r *evid.Run) *evid.Failure {
 			if !bytes.Equal(o.payload, expectedBody(i, c)) {
 				return evid.Failf("match/foreign-response", sc, "call %d (token %x) returned %q, the peer produced %q for it", i, c.Token, o.payload, expectedBody(i, c))
 			}
-		} else if answered[i] {
+		} else if answered[i] && !c.GiveUp {
 			// the peer answered this request and nothing was lost: the call must have succeeded
 			return evid.Failf("match/answered-call-failed", sc, "call %d (token %x) was answered by the peer (%s) but returned %v", i, c.Token, c.Style, o.err)
+		}
+	}
+	if probe.at == 1 {
+		tok := []byte{0x9B, 0x0E}
+		switch {
+		case !probe.returned:
+			return evid.Failf("match/call-hangs", sc, "the request issued after the calls that gave up has not returned")
+		case probe.err != nil:
+			return evid.Failf("match/answered-call-failed", sc, "the request issued after the calls that gave up was answered by the peer but returned %v", probe.err)
+		case !bytes.Equal(probe.token, tok) || !bytes.Equal(probe.payload, expected(n+1, tok)):
+			return evid.Failf("match/foreign-response", sc, "the request issued after a call had given up at the moment its response arrived returned token %x body %q instead of its own (%x, %q)", probe.token, probe.payload, tok, expected(n+1, tok))
 		}
 	}
 	if reuse.at == 1 {
@@ -538,7 +623,7 @@ func Exec(t *testing.T, sc Scenario, r *evid.Run) *evid.Failure {
 		if dup.took > 5*time.Second {
 			return evid.Failf("match/duplicate-token-not-refused-promptly", sc, "call %d re-used token %x while call %d was outstanding; it failed only at %v (%v)", i, c.Token, c.DupOf, dup.at, dup.err)
 		}
-		if answered[c.DupOf] && orig.err != nil {
+		if answered[c.DupOf] && orig.err != nil && !sc.Calls[c.DupOf].GiveUp {
 			return evid.Failf("match/duplicate-token-displaced", sc, "call %d re-used the token %x of the outstanding call %d; the peer answered, but call %d failed: %v", i, c.Token, c.DupOf, c.DupOf, orig.err)
 		}
 	}
@@ -597,7 +682,8 @@ func gen(t *rapid.T) Scenario {
 		c := Call{Token: tok, DupOf: -1, Non: sc.Transport == "udp" && rapid.IntRange(0, 4).Draw(t, "non") == 0,
 			Style:   rapid.SampledFrom([]string{"piggy", "piggy", "sep", "sep-first", "dup", "dup-fresh"}).Draw(t, "style"),
 			DelayMs: rapid.SampledFrom([]int{0, 0, 1, 20, 500}).Draw(t, "delay"), SepCon: rapid.Bool().Draw(t, "sepcon"),
-			HoldMs: rapid.SampledFrom([]int{0, 0, 2, 30, 600}).Draw(t, "hold"), Release: rapid.Bool().Draw(t, "release")}
+			HoldMs: rapid.SampledFrom([]int{0, 0, 2, 30, 600}).Draw(t, "hold"), Release: rapid.Bool().Draw(t, "release"),
+			GiveUp: sc.Transport == "udp" && rapid.IntRange(0, 7).Draw(t, "giveup") == 0}
 		if sc.Blockwise && rapid.IntRange(0, 3).Draw(t, "big") == 0 {
 			// duplicated blocks of a block-wise body are C04's subject
 			c.Big = rapid.IntRange(2, 6).Draw(t, "nblocks")
@@ -606,6 +692,9 @@ func gen(t *rapid.T) Scenario {
 			}
 		}
 		sc.Calls = append(sc.Calls, c)
+		if c.GiveUp {
+			continue // (a call that gives up frees its token: a colliding request would not collide)
+		}
 		if !sc.Serialised && len(sc.Calls) < 8 && rapid.IntRange(0, 5).Draw(t, "dup") == 0 {
 			sc.Calls = append(sc.Calls, Call{Token: tok, DupOf: len(sc.Calls) - 1, Style: "piggy", Non: c.Non})
 		} else if !sc.Serialised && c.Big >= 2 && len(sc.Calls) < 8 && rapid.IntRange(0, 2).Draw(t, "latedup") == 0 {
